@@ -15,10 +15,10 @@ Inductive hostval :=
 | HBool (b : bool)
 | HTime (unix : Z)                       (* time.Time *)
 | HSlice (l : list hostval)              (* any slice; elements as dynamic values *)
-| HMapIface (l : list (str * hostval))   (* map[string]interface{} *)
+| HMapIface (l : list (str * hostval))   (* a map with string keys; values as their dynamic values
+                                            (what is inside the interface / behind the pointer) *)
 | HMapOther (keykind : N) (l : list (hostval * hostval))
-                                         (* any other map type: keykind 0 = string keys with
-                                            non-interface values, 1 = non-string keys *)
+                                         (* a map with keys of another kind, given as host values *)
 | HStruct (l : list (str * hostval))     (* exported fields in declaration order *)
 | HPtr (h : hostval)                     (* non-nil pointer *)
 | HNilPtr                                (* typed nil pointer *)
@@ -76,8 +76,27 @@ Fixpoint to_object (fuel : nat) (h : hostval) : option conv :=
              | None => None
              end
          end) l []
-  | HMapOther _ [] => Some (CVal (VHash []))
-  | HMapOther _ (_ :: _) => Some CPanic                 (* Elem() of a non-interface value, or unhashable key *)
+  | HMapOther _ l =>
+      (* keys are converted like any value; a key that is not hashable is skipped *)
+      (fix go (l : list (hostval * hostval)) (acc : list (value * value)) : option conv :=
+         match l with
+         | [] => Some (CVal (VHash acc))
+         | (k, x) :: l' =>
+             match to_object f k, to_object f x with
+             | Some (CVal kv), Some (CVal v) =>
+                 match hash_key o kv with
+                 | None => None
+                 | Some None => go l' acc
+                 | Some (Some hk) => match hash_put o acc hk kv v with
+                                     | Some acc' => go l' acc'
+                                     | None => None
+                                     end
+                 end
+             | Some CPanic, _ => Some CPanic
+             | _, Some CPanic => Some CPanic
+             | _, _ => None
+             end
+         end) l []
   | HStruct _ => Some (CVal VNull)                      (* a struct that is not time.Time *)
   | HPtr _ | HNilPtr | HIface _ | HOther => Some (CVal VNull)
   end
@@ -101,8 +120,8 @@ Definition host_fields (h : hostval) : option (option (list (str * value))) :=
     match h with
     | HStruct l => conv_fields l
     | HMapIface l => conv_fields l
-    | HMapOther _ [] => Some (Some [])
-    | _ => Some None                                    (* NumField / Elem / key assertion panics *)
+    | HMapOther _ _ => Some (Some [])                   (* keys that are not strings name nothing *)
+    | _ => Some None                                    (* NumField panics: not a struct *)
     end in
   match h with
   | HNil => Some (Some [])                              (* obj == nil: nothing to inspect *)
